@@ -214,3 +214,115 @@ theorem verifySegs_cut (c : WalCfg) (hc : c.Good) (crc : Bytes → Nat)
     · exact hok rs (by simp [h1]) x hx
 
 end NoKV.Wal
+
+namespace NoKV.Wal
+
+theorem encodeAll_length' (crc : Bytes → Nat) (rs : List Rec) : (encodeAll crc rs).length = encLenAll rs := by
+  induction rs with
+  | nil => rfl
+  | cons r rs ih => rw [encodeAll_cons, List.length_append, encode_length, ih]; rfl
+
+/-- `verifySegs_cut` for any short-header rule, provided the cut does not leave a 1–3-byte
+header fragment (or the rule is the repaired one). -/
+theorem verifySegs_cut_gen (c : WalCfg) (hst : c.verifyStep = 8) (htr : c.verifyTruncPartial = true)
+    (crc : Bytes → Nat)
+    (s : Seg) (older : List Seg) (g0 : List Rec) (gs : List (List Rec)) (h : Clean crc (s :: older) (g0 :: gs))
+    (n : Nat)
+    (hfrag : c.shortHeaderPartial = true ∨ (torn crc n g0).length = 0 ∨ 4 ≤ (torn crc n g0).length) :
+    ∃ s', verifySegs c crc (cutHead n (s :: older)) = (s' :: older, .ok) ∧
+      Clean crc (s' :: older) (wholly n g0 :: gs) := by
+  obtain ⟨hm, hok⟩ := h
+  simp only [List.map_cons, List.cons.injEq] at hm
+  have hold : Clean crc older gs := ⟨hm.2, fun rs hrs => hok rs (by simp [hrs])⟩
+  have h0 : ∀ r ∈ g0, RecOK r := hok g0 (by simp)
+  have hw := wholly_ok h0 n
+  simp only [cutHead, verifySegs, verifySegs_clean c crc older gs hold]
+  rw [hm.1, take_encodeAll]
+  refine ⟨⟨s.id, encodeAll crc (wholly n g0)⟩, ?_, ⟨by simp [hm.2], ?_⟩⟩
+  · unfold verifySeg
+    simp only
+    rw [scan_encodeAll c crc c.verifyStep (wholly n g0) _ hw]
+    obtain ⟨_, h2, h3⟩ := scan_torn c crc c.verifyStep g0 h0 n
+    have hshort := scan_torn_eof_short c crc c.verifyStep g0 h0 n
+    rw [h2]
+    rcases h3 with ⟨h3, h4⟩ | h3
+    · have hnil : torn crc n g0 = [] := by
+        rcases hfrag with hf | hf | hf
+        · exact h4 hf
+        · exact List.eq_nil_of_length_eq_zero hf
+        · have := hshort h3; omega
+      rw [h3, hnil]; simp [Status.ofErr]
+    · rw [h3, hst, htr]
+      simp only [if_true, Nat.add_zero]
+      rw [← encodeAll_length crc, List.take_append_of_le_length (Nat.le_refl _), List.take_of_length_le (Nat.le_refl _)]
+  · intro rs hrs x hx
+    rcases List.mem_cons.mp hrs with h1 | h1
+    · subst h1; exact hw x hx
+    · exact hok rs (by simp [h1]) x hx
+
+/-- one step of a history keeps model and specification in step -/
+theorem clean_stepX (c : WalCfg) (hc : c.Good) (crc : Bytes → Nat) (segSize : Nat)
+    (s : Seg) (older : List Seg) (g0 : List Rec) (gs : List (List Rec)) (h : Clean crc (s :: older) (g0 :: gs))
+    (x : XOp) (hx : ∀ r ∈ appendedX [x], RecOK r) :
+    ∃ s' older' g0' gs', stepX c crc segSize (s :: older) x = s' :: older' ∧
+      gStep segSize (g0 :: gs) x = g0' :: gs' ∧ Clean crc (s' :: older') (g0' :: gs') := by
+  cases x with
+  | op o =>
+    cases o with
+    | append r =>
+      have hr : RecOK r := hx r (by simp [appendedX])
+      obtain ⟨hm, hok⟩ := h
+      simp only [List.map_cons, List.cons.injEq] at hm
+      have hlen : s.data.length = encLenAll g0 := by rw [hm.1, encodeAll_length']
+      simp only [stepX, stepOp, appendRec, gStep, hlen]
+      split
+      · refine ⟨_, _, _, _, rfl, rfl, ⟨?_, ?_⟩⟩
+        · simp [hm.1, hm.2, encodeAll_append, encodeAll_cons, encodeAll_nil]
+        · intro rs hrs y hy
+          rcases List.mem_cons.mp hrs with h1 | h1
+          · subst h1
+            rcases List.mem_append.mp hy with h2 | h2
+            · exact hok g0 (by simp) y h2
+            · simp at h2; subst h2; exact hr
+          · exact hok rs (by simp [h1]) y hy
+      · refine ⟨_, _, _, _, rfl, rfl, ⟨?_, ?_⟩⟩
+        · simp [hm.1, hm.2, encodeAll_cons, encodeAll_nil]
+        · intro rs hrs y hy
+          rcases List.mem_cons.mp hrs with h1 | h1
+          · subst h1; simp at hy; subst hy; exact hr
+          · exact hok rs h1 y hy
+    | rotate =>
+      exact ⟨_, _, _, _, rfl, rfl, clean_rotate crc s older g0 gs h⟩
+  | crash n =>
+    obtain ⟨sv, hv, hcl⟩ := verifySegs_cut c hc crc s older g0 gs h n
+    refine ⟨sv, older, wholly n g0, gs, ?_, rfl, hcl⟩
+    simp only [stepX, crashReopen, hv, openSegs]
+
+theorem appendedX_cons_ok {x : XOp} {xs : List XOp} (h : ∀ r ∈ appendedX (x :: xs), RecOK r) :
+    (∀ r ∈ appendedX [x], RecOK r) ∧ (∀ r ∈ appendedX xs, RecOK r) := by
+  cases x with
+  | op o =>
+    cases o with
+    | append r =>
+      simp only [appendedX, List.mem_cons] at h ⊢
+      exact ⟨fun y hy => h y (by rcases hy with hy | hy; exact Or.inl hy; simp at hy), fun y hy => h y (Or.inr hy)⟩
+    | rotate => simp only [appendedX] at h ⊢; exact ⟨by simp, h⟩
+  | crash n => simp only [appendedX] at h ⊢; exact ⟨by simp, h⟩
+
+/-- whole histories: the directory stays the encoding of the specification's segmentation -/
+theorem runX_clean (c : WalCfg) (hc : c.Good) (crc : Bytes → Nat) (segSize : Nat) :
+    ∀ (xs : List XOp) (s : Seg) (older : List Seg) (g0 : List Rec) (gs : List (List Rec)),
+      Clean crc (s :: older) (g0 :: gs) → (∀ r ∈ appendedX xs, RecOK r) →
+      Clean crc (runX c crc segSize (s :: older) xs) (gRun segSize (g0 :: gs) xs) := by
+  intro xs
+  induction xs with
+  | nil => intro s older g0 gs h _; exact h
+  | cons x xs ih =>
+    intro s older g0 gs h hr
+    obtain ⟨h1, h2⟩ := appendedX_cons_ok hr
+    obtain ⟨s', older', g0', gs', e1, e2, hcl⟩ := clean_stepX c hc crc segSize s older g0 gs h x h1
+    simp only [runX, gRun, List.foldl_cons]
+    rw [e1, e2]
+    exact ih s' older' g0' gs' hcl h2
+
+end NoKV.Wal
